@@ -791,7 +791,11 @@ fn run_case(set: &[Loaded], case: &Case, scratch: &Path, seed: u64, pristine_dum
         });
     }
     // (a) everything a user can read
-    let dump = match jbkmc::catch(|| dump_container(&entry, &opts)) {
+    let dump = match jbkmc::catch(|| {
+        let mut d = dump_container(&entry, &opts);
+        d["file_packs"] = dump_file_packs(&dir, &l.desc.files);
+        d
+    }) {
         Ok(d) => d,
         Err(p) => {
             panics.push(p);
@@ -914,6 +918,7 @@ fn giant(args: &Args) -> ! {
     if mm.is_some() {
         rep.rule = format!("{}; here every read is repeated once per answer of the environment to the file mappings the reader asks for: the k-th mapping of the run refused (ENOMEM) for every k, and all of them refused; a refused mapping must end in an error or in values as written", rep.rule);
     }
+    jbkmc::watchdog::start("faultmc", "C05", "C06 reading a damaged 19 MB entry store does not terminate", std::time::Duration::from_secs(120), args.out.clone(), |c| c);
     const N: u64 = 300_000;
     let value = |j: u64, k: u64| -> u64 { 0xA5_00_00_00_00_00_00_00 | (k << 48) | (j.wrapping_mul(2_654_435_761) & 0xFFFF_FFFF_FFFF) };
     let dir = jbkmc::scratch_dir("giant");
@@ -1032,6 +1037,7 @@ fn giant(args: &Args) -> ! {
             if let Some(m) = &mm {
                 m.set(0);
             }
+            let _wd = jbkmc::watchdog::guard(|| case.to_string());
             runs.push((0, jbkmc::catch(|| read_entry(j))));
             if let Some(m) = &mm {
                 let (asked, _) = m.stats();
@@ -1139,6 +1145,7 @@ fn sweep(args: &Args, prop: &'static str) -> ! {
         rep.rule = format!("{}; here N = 1000.. only, contents of 1..5 bytes (content i has 1 + i mod 5 bytes) in a third variant, and the environment refuses every file mapping the reader asks for (ENOMEM): a block that cannot be mapped must end in an error or in values as written", rep.rule);
     }
     let lens: Vec<usize> = if mm.is_some() { vec![1, 130, 0] } else { vec![1, 130] };
+    jbkmc::watchdog::start("faultmc", prop, "C06 reading a damaged content pack does not terminate", std::time::Duration::from_secs(60), args.out.clone(), |c| c);
     let dir = jbkmc::scratch_dir("sweep");
     let replay: Option<J> = args.replay.as_ref().map(|p| {
         let j: J = serde_json::from_str(&std::fs::read_to_string(p).expect("replay")).unwrap();
@@ -1237,6 +1244,7 @@ fn sweep(args: &Args, prop: &'static str) -> ! {
                 bytes[at] ^= mask;
                 std::fs::write(&path, &bytes).unwrap();
                 let case = if mm.is_some() { let mut c = case.clone(); c["refused_mapping"] = json!(-1); c } else { case };
+                let _wd = jbkmc::watchdog::guard(|| case.to_string());
                 let got = jbkmc::catch(|| -> Vec<Result<Vec<u8>, String>> {
                     let pack = match jubako::FileSource::open(&path).map_err(|e| e.to_string()).and_then(|f| jubako::reader::ContentPack::new(jubako::Reader::from(f)).map_err(|e| jerr(e).to_string())) {
                         Ok(p) => p,
@@ -1324,7 +1332,7 @@ fn path_class(p: &str) -> String {
     let parts: Vec<&str> = p.split('/').filter(|x| !x.is_empty()).collect();
     let mut out = vec![];
     for (i, part) in parts.iter().enumerate() {
-        let keep = matches!(*part, "indexes" | "entries" | "values" | "contents" | "manifest" | "packs" | "directory" | "variant" | "size" | "blake3" | "read" | "count" | "offset" | "store" | "header" | "pack_count" | "open" | "check" | "uuid" | "location" | "kind" | "id" | "free_data" | "content_count" | "packs_free_data" | "group" | "free_data_id" | "check_info_pos" | "#len" | "vendor" | "missing" | "bytes");
+        let keep = matches!(*part, "indexes" | "entries" | "values" | "contents" | "manifest" | "packs" | "directory" | "variant" | "size" | "blake3" | "read" | "count" | "offset" | "store" | "header" | "pack_count" | "open" | "check" | "uuid" | "location" | "kind" | "id" | "free_data" | "content_count" | "packs_free_data" | "group" | "free_data_id" | "check_info_pos" | "#len" | "vendor" | "missing" | "bytes" | "file_packs");
         if keep && !(i > 0 && parts[i - 1] == "values") {
             out.push(part.to_string());
         } else {
@@ -1373,7 +1381,8 @@ fn main() {
         let mut opts = opts_for(&l);
         opts.with_manifest = true;
         let entry = base.path().join(&d.name).join(&d.files[0]);
-        let dump = dump_container(&entry, &opts);
+        let mut dump = dump_container(&entry, &opts);
+        dump["file_packs"] = dump_file_packs(&base.path().join(&d.name), &d.files);
         let diffs = compare_with_model(&model_dump(&l), &dump);
         if !diffs.is_empty() {
             rep.violation(
